@@ -318,6 +318,18 @@ Definition trash_file (path : str) (o : put_opts) : prog bool :=
   cs <- possible_trash_directories_for volume o ;;
   try_candidates cs o path volume [].
 
+(* user.py printable (fixed): a prompt that stdout cannot encode (lone surrogates = undecodable file-name bytes) is
+   written with those characters as \udcxx, the way errors='backslashreplace' does *)
+Definition hex_lower (d : N) : N := if d <? 10 then 48 + d else 87 + d.
+Definition backslash_u (c : N) : str :=
+  [92; 117; hex_lower ((c / 4096) mod 16); hex_lower ((c / 256) mod 16); hex_lower ((c / 16) mod 16); hex_lower (c mod 16)].
+Definition is_surrogate (c : N) : bool := (55296 <=? c) && (c <=? 57343).
+Definition printable (t : str) : str :=
+  match utf8_encode t with
+  | Some _ => t
+  | None => flat_map (fun c => if is_surrogate c then backslash_u c else [c]) t
+  end.
+
 (* trasher.py trash_single : true = TrashResult.Success *)
 Definition trash_single (path : str) (o : put_opts) : prog bool :=
   if should_skipped_by_specs path then
@@ -335,7 +347,7 @@ Definition trash_single (path : str) (o : put_opts) : prog bool :=
   | ModeInteractive =>
       if acc then
         d <- describe path ;;
-        reply <- call_str (Input ($"trash-put: trash " ++ d ++ $" '" ++ path ++ $"'? ")) ;;
+        reply <- call_str (Input (printable ($"trash-put: trash " ++ d ++ $" '" ++ path ++ $"'? "))) ;;
         if parse_user_reply reply then trash_file path o else Ret true
       else trash_file path o
   | _ => trash_file path o
